@@ -104,9 +104,11 @@ type step struct {
 }
 
 type input struct {
-	Name  string `json:"name"`
-	Steps []step `json:"steps"`
-	Drain bool   `json:"drain"`
+	Name   string `json:"name"`
+	Steps  []step `json:"steps"`
+	Drain  bool   `json:"drain"`
+	Random int    `json:"random,omitempty"` // number of random steps after Steps
+	Seed   int64  `json:"seed,omitempty"`
 }
 
 type tokKey struct{ tree, run int }
@@ -133,6 +135,7 @@ type world struct {
 	snaps   []string
 	answers []string
 	failed  string
+	f27     bool // an instance finished while a message thread of the same tree was between lookup and delivery
 }
 
 type heldTimer struct {
@@ -141,6 +144,7 @@ type heldTimer struct {
 }
 
 type flight struct {
+	stage int // miss thread: 0 = held after the lookup, 1 = held before Register
 	key  tokKey
 	gate *lib.Gate // currently holding gate
 	done chan struct{}
@@ -278,9 +282,33 @@ func (w *world) flushed(i int, fd *lib.Gate) {
 		return
 	}
 	w.settle()
+	// every re-transmitted message for a finished run on an otherwise unused tree cancels the
+	// scheduled removal (lookup) and schedules a new one (drop): mirror the model's channel numbers
+	rearms := 0
+	active, done := w.ovX.VerifInstances()
+	used := false
+	for _, k := range w.order {
+		if k.tree == i {
+			for _, a := range active {
+				if a.Equal(w.tokens[k].ID()) {
+					used = true
+				}
+			}
+		}
+	}
 	for _, pk := range w.parked[i] {
 		w.emit("MsgLookup "+ktext(pk), false)
 		w.emit("MsgDeliver "+ktext(pk), false)
+		if tok, ok := w.tokens[pk]; ok && !used {
+			for _, d := range done {
+				if d.Equal(tok.ID()) {
+					rearms++
+				}
+			}
+		}
+	}
+	if rearms > 1 {
+		w.next += rearms - 1
 	}
 	w.parked[i] = nil
 	fd.Release()
@@ -435,6 +463,9 @@ func (w *world) exec(s step) {
 		}
 		g := w.sched.Block("overlay.notRegistered", 1, w.matchTree(s.Tree))
 		pk := w.sched.Block("overlay.parked", 1, w.matchTree(s.Tree))
+		fd := w.sched.Block("overlay.flushDone", 1, w.matchTree(s.Tree))
+		w.setTimer(s.Tree, s.Long)
+		before := w.ovX.VerifRemovalPending(tr.ID)
 		f.gate.Release()
 		if !pk.WaitHit(wait) {
 			w.failed = "message was not parked"
@@ -444,18 +475,29 @@ func (w *world) exec(s step) {
 		pk.Release()
 		hit := make(chan bool, 1)
 		go func() { hit <- g.WaitHit(wait) }()
+		returned := false
 		select {
 		case <-f.done:
 			g.Release()
 			delete(w.missG, s.Tree)
+			returned = true
 		case h := <-hit:
 			if !h {
 				w.failed = "miss thread stuck"
 				return
 			}
 			f.gate = g
+			f.stage = 1
 		}
-		w.emit(fmt.Sprintf("MissCheck %d", s.Tree), true)
+		w.emit(fmt.Sprintf("MissCheck %d", s.Tree), false)
+		if returned && w.ovX.VerifTreeState(tr.ID) == 2 {
+			// the tree is there: the re-check after parking (repair of F01) flushes the parked messages
+			w.flushed(s.Tree, fd)
+			w.noteRemoval(s.Tree, before, s.Long)
+		} else {
+			fd.Release()
+		}
+		w.snaps[len(w.snaps)-1] = w.snapshot()
 	case "missreg":
 		f := w.missG[s.Tree]
 		if f == nil {
@@ -503,6 +545,11 @@ func (w *world) exec(s step) {
 		if p == nil {
 			w.failed = "no instance handle"
 			return
+		}
+		for fk, f := range w.inflite {
+			if fk.tree == s.Tree && f.hit {
+				w.f27 = true
+			}
 		}
 		w.setTimer(s.Tree, s.Long)
 		before := w.ovX.VerifRemovalPending(tr.ID)
@@ -585,8 +632,13 @@ func run(raw json.RawMessage) lib.Case {
 		}
 	}
 	defer func() {
-		w.sched.ReleaseAll()
+		// a held message thread whose tree has been removed (F27) would crash the process when
+		// its message reaches the instance: give every tree back before letting the threads go
 		onet.SetVerifHook(func(string, ...interface{}) {})
+		for _, t := range w.trees {
+			w.ovX.RegisterTree(t)
+		}
+		w.sched.ReleaseAll()
 		cnt.Lock()
 		var ps []*proto
 		for _, p := range cnt.insts {
@@ -610,6 +662,10 @@ func run(raw json.RawMessage) lib.Case {
 			break
 		}
 	}
+	executed := append([]step(nil), in.Steps...)
+	if in.Random > 0 && w.failed == "" {
+		executed = append(executed, w.randomWalk(in.Random, in.Seed)...)
+	}
 	drained := false
 	if w.failed == "" && in.Drain {
 		// run every held timer to completion
@@ -617,15 +673,145 @@ func run(raw json.RawMessage) lib.Case {
 			w.exec(step{Op: "tdelete", Tree: w.held[0].tree})
 		}
 		drained = w.failed == ""
+		// a removal whose (long) timer has not fired is still pending: not drained
+		for i := range w.trees {
+			if w.ovX.VerifRemovalPending(w.trees[i].ID) {
+				drained = false
+			}
+		}
 	}
 	if w.failed != "" {
+		if os.Getenv("VERIF_DEBUG") != "" {
+			fmt.Fprintln(os.Stderr, "discard:", w.failed, executed)
+		}
 		return lib.Case{Discard: true, Class: in.Name, Obs: w.failed}
 	}
 	coq := fmt.Sprintf("mkCase %s %s %s %s", lib.List(w.acts), lib.List(w.snaps), lib.List(w.answers), lib.Bool(drained))
 	obs := map[string]interface{}{"actions": strings.Join(w.acts, "; "), "answers": strings.Join(w.answers, " "),
 		"last": w.snaps[len(w.snaps)-1]}
-	return lib.Case{Coq: coq, Class: in.Name, Obs: obs, Nontrivial: len(w.acts) > 3, Key: strings.Join(w.acts, ";")}
+	class := in.Name
+	if w.f27 {
+		class += "+f27window"
+	}
+	return lib.Case{Coq: coq, Class: class, Input: input{Name: in.Name, Steps: executed, Drain: in.Drain}, Obs: obs,
+		Nontrivial: len(w.acts) > 3, Key: strings.Join(w.acts, ";")}
 }
+
+// randomWalk performs n random applicable steps on trees 0 and 1 and then settles every
+// thread it left in flight; it returns the steps performed (for the replay file)
+func (w *world) randomWalk(n int, seed int64) []step {
+	rng := rand.New(rand.NewSource(seed))
+	var done []step
+	nextRun := map[int]int{0: 10, 1: 10}
+	do := func(s step) {
+		w.exec(s)
+		done = append(done, s)
+	}
+	activeTokens := func() []tokKey {
+		active, _ := w.ovX.VerifInstances()
+		var out []tokKey
+		for _, k := range w.order {
+			id := w.tokens[k].ID()
+			for _, a := range active {
+				if a.Equal(id) {
+					cnt.Lock()
+					_, has := cnt.insts[w.tokens[k].RoundID]
+					cnt.Unlock()
+					if has {
+						out = append(out, k)
+					}
+				}
+			}
+		}
+		return out
+	}
+	heldTrees := func() []int {
+		seen := map[int]bool{}
+		var out []int
+		for _, h := range w.held {
+			if !seen[h.tree] {
+				seen[h.tree] = true
+				out = append(out, h.tree)
+			}
+		}
+		return out
+	}
+	for i := 0; i < n && w.failed == ""; i++ {
+		t := rng.Intn(2)
+		switch c := rng.Intn(20); {
+		case c < 4:
+			nextRun[t]++
+			do(step{Op: "run", Tree: t, Run: nextRun[t], Long: rng.Intn(3) == 0})
+		case c < 8:
+			// a message for a known token (any state) or for a new remote run
+			var k tokKey
+			if len(w.order) > 0 && rng.Intn(3) > 0 {
+				k = w.order[rng.Intn(len(w.order))]
+			} else {
+				nextRun[t]++
+				k = tokKey{t, nextRun[t]}
+			}
+			if w.inflite[k] != nil || w.missG[k.tree] != nil {
+				continue
+			}
+			do(step{Op: "lookup", Tree: k.tree, Run: k.run})
+		case c < 11:
+			for k := range w.inflite {
+				if w.ovX.VerifTreeState(w.trees[k.tree].ID) != 2 {
+					continue // the tree was removed under the thread (F27): delivering would crash the process
+				}
+				do(step{Op: "deliver", Tree: k.tree, Run: k.run, Long: rng.Intn(3) == 0})
+				break
+			}
+		case c < 13:
+			for tr, f := range w.missG {
+				if f.stage == 0 {
+					do(step{Op: "misscheck", Tree: tr})
+				} else {
+					do(step{Op: "missreg", Tree: tr})
+				}
+				break
+			}
+		case c < 14:
+			if w.ovX.VerifTreeState(w.trees[t].ID) == 1 {
+				do(step{Op: "arrive", Tree: t, Long: rng.Intn(3) == 0})
+			}
+		case c < 17:
+			if ks := activeTokens(); len(ks) > 0 {
+				k := ks[rng.Intn(len(ks))]
+				do(step{Op: "done", Tree: k.tree, Run: k.run, Long: rng.Intn(4) == 0})
+			}
+		case c < 19:
+			if hs := heldTrees(); len(hs) > 0 {
+				do(step{Op: "tdelete", Tree: hs[rng.Intn(len(hs))]})
+			}
+		default:
+			do(step{Op: "req", Tree: t})
+		}
+	}
+	// settle what is in flight
+	for k := range w.inflite {
+		if w.failed == "" && w.ovX.VerifTreeState(w.trees[k.tree].ID) == 2 {
+			do(step{Op: "deliver", Tree: k.tree, Run: k.run})
+		}
+	}
+	for tr := range w.missG {
+		for guard := 0; w.missG[tr] != nil && w.failed == "" && guard < 3; guard++ {
+			if w.missG[tr].stage == 0 {
+				do(step{Op: "misscheck", Tree: tr})
+			} else {
+				do(step{Op: "missreg", Tree: tr})
+			}
+		}
+	}
+	for tr := range w.trees {
+		if w.failed == "" && w.ovX.VerifTreeState(w.trees[tr].ID) == 1 {
+			do(step{Op: "arrive", Tree: tr})
+		}
+	}
+	return done
+}
+
 
 // ---- scenario templates ---------------------------------------------------------
 
@@ -661,6 +847,8 @@ func templates(t int) []input {
 			st("missreg", t), st("req", t), st("arrive", t), st("done", t, 2), st("done", t, 1)}},
 		{Name: "late-after-release", Drain: true, Steps: []step{st("run", t, 1), st("done", t, 1), st("tdelete", t), st("lookup", t, 1),
 			st("misscheck", t), st("missreg", t), st("arrive", t), st("req", t)}},
+		{Name: "stale-timer", Drain: true, Steps: []step{st("run", t, 1), st("done", t, 1), st("run", t, 2), st("done", t, 2),
+			st("tdelete", t), st("req", t), st("tdelete", t), st("req", t)}},
 		{Name: "unsolicited-tree", Drain: true, Steps: []step{st("arrive", t), st("req", t), st("lookup", t, 1), st("misscheck", t),
 			st("missreg", t), st("lookup", t, 2), st("misscheck", t), st("arrive", t), st("done", t, 1), st("done", t, 2)}},
 	}
@@ -692,6 +880,9 @@ func generate(rng *rand.Rand, tier string) []interface{} {
 				}
 			}
 			ins = append(ins, input{Name: a.Name + "+" + b.Name, Drain: true, Steps: steps})
+		}
+		for n := 0; n < 12; n++ {
+			ins = append(ins, input{Name: "random-walk", Drain: true, Random: 10 + rng.Intn(25), Seed: rng.Int63()})
 		}
 	}
 	return ins
